@@ -51,6 +51,9 @@ ASSUMPTIONS = [
     'clock and ttl values on the 2^-10 grid; a lookup never happens exactly at an expiry time',
     'Deque/Index are always opened with eviction_policy none (persistent.py passes it on every open)',
     'POSIX',
+    'sub-containers of a FanoutCache / DjangoCache: the second handle on the sub-directory is opened with the Disk class of the parent (settings: the stored ones); '
+    'a Deque over JSONDisk cannot be iterated or indexed even through one handle (JSONDisk.get is applied to the integer queue keys), so there its length and both ends '
+    'are compared after every step and the whole sequence when it is taken out item by item at the end',
     'settings histories: resets complete one after another (no two writers of one setting at the same time); a handle that does not reload keeps '
     'the value it loaded (documented: settings attributes are loaded lazily, reset(key) refreshes them), so only handles that (re)load are compared; '
     'size_limit of a FanoutCache is the share of a shard at creation (total / shards) and whatever reset(size_limit, v) stored afterwards '
@@ -1476,6 +1479,192 @@ def settings_histories(ctx, res, n_hist, n_steps):
     res.extra['settings_histories'] = n_hist
 
 
+# ---------------------------------------------------------------------------
+# sub-containers handed out by a FanoutCache / DjangoCache: cache(name), deque(name), index(name)
+
+SUB_PARENTS = ['fanout', 'django']
+SUB_KINDS = ['cache', 'deque', 'index']
+SUB_DISKS = [('Disk', {}), ('Disk', {'disk_min_file_size': 64, 'disk_pickle_protocol': 2}), ('JSONDisk', {}), ('JSONDisk', {'disk_compress_level': 6}),
+             ('JSONDisk', {'disk_compress_level': 9, 'disk_min_file_size': 64}), ('JSONDisk', {'disk_compress_level': 0})]
+SUB_EVENTS = ['none', 'reopen', 'pickle', 'close']
+SUB_NAMES = ['x', 'users/by-id']
+JSON_DEQUE_ENDS_ONLY = True
+
+
+def sub_parent(parent, d, disk, settings):
+    return make_handle(parent, d, disk, settings, create=True)
+
+
+def sub_get(sub, h, name):
+    return getattr(h, sub)(name)
+
+
+def sub_second(sub, subdir, disk):
+    """a second handle on the directory of the sub-container, opened with the disk class of the parent (settings: the stored ones)"""
+    c = diskcache.Cache(subdir, disk=getattr(diskcache, disk))
+    if sub == 'deque':
+        return diskcache.Deque.fromcache(c)
+    if sub == 'index':
+        return diskcache.Index.fromcache(c)
+    return c
+
+
+def sub_write(sub, h, ref, items):
+    for k, v in items:
+        if sub == 'deque':
+            h.append(v)
+            ref.append((None, v))
+        else:
+            h[k] = v
+            for i, (k0, _) in enumerate(ref):
+                if k0 == k:
+                    ref[i] = (k, v)
+                    break
+            else:
+                ref.append((k, v))
+
+
+def sub_read(sub, h, ref):
+    """what the handle shows against the reference: None or a description"""
+    try:
+        if sub == 'deque' and JSON_DEQUE_ENDS_ONLY and isinstance(h.cache.disk, diskcache.JSONDisk):
+            # iterating / indexing a Deque over JSONDisk raises TypeError in JSONDisk.get (the queue keys are plain integers, not JSON text), with one handle
+            # alone: not a matter of sharing; the length and both ends are compared here and the whole sequence when it is drained at the end of the case
+            want = [v for _, v in ref]
+            got = [h.peekleft(), h.peek()] if len(h) else []
+            if len(h) != len(want) or got != ([want[0], want[-1]] if want else []):
+                return 'deque has len %r and ends %s, written: %s' % (len(h), short(got), short(want))
+            return None
+        if sub == 'deque':
+            got = list(h)
+            want = [v for _, v in ref]
+            if got != want or len(h) != len(want):
+                return 'deque shows %s (len %r), written: %s' % (short(got), len(h), short(want))
+            return None
+        n = len(h)
+        if n != len(ref):
+            return 'len %r, %d item(s) written: %s' % (n, len(ref), short([k for k, _ in ref]))
+        for k, v in ref:
+            got = h.get(k, '<MISSING>')
+            if got != v or type(got) is not type(v):
+                return 'key %r -> %s, written %s' % (k, short(got), short(v))
+            if k not in h:
+                return 'key %r not in the container' % (k,)
+        keys = list(h)
+        want = [k for k, _ in ref]
+        if (keys != want) if sub == 'index' else (sorted(map(repr, keys)) != sorted(map(repr, want))):
+            return 'keys %s, written %s' % (short(keys), short(want))
+        return None
+    except Exception as e:  # noqa
+        return 'raised %s: %s' % (type(e).__name__, e)
+
+
+def sub_items(disk, salt):
+    vals = JVALUES if disk == 'JSONDisk' else VALUES
+    keys = ['a', 'b', 'k\xe9', 'long-key-' + 'x' * 40, 7, 2 ** 40] if disk == 'JSONDisk' else KEYS
+    return [(keys[(i + salt) % len(keys)], vals[(2 * i + salt) % len(vals)]) for i in range(5)]
+
+
+def run_subcontainer(scratch, case):
+    """One parent (FanoutCache / DjangoCache with a Disk class and disk_ settings), one handed-out container.  Returns [(sig, desc)]."""
+    parent, sub, disk, settings, event, name = case['parent'], case['sub'], case['disk'], dict(case['settings']), case['event'], case['name']
+    d = os.path.join(scratch, 'p')
+    subdir = os.path.join(d, sub, *name.split('/'))
+    found = []
+    what = '%s(%s, %r).%s(%r)' % (parent, disk, settings, sub, name)
+
+    def bad(sig, desc):
+        found.append((sig, '%s: %s' % (what, desc)))
+    h = sub_parent(parent, d, disk, settings)
+    second = None
+    ref = []
+    try:
+        c = sub_get(sub, h, name)
+        dk = getattr(diskcache, disk)
+        cdisk = inner(sub if sub != 'cache' else 'cache', c).disk
+        if not isinstance(cdisk, dk):
+            bad('subcontainer_disk_class', 'the disk of the handed-out container is a %s, the parent was created with disk=%s' % (type(cdisk).__name__, disk))
+        sub_write(sub, c, ref, sub_items(disk, 0))
+        second = sub_second(sub, subdir, disk)
+        r = sub_read(sub, second, ref)
+        if r:
+            bad('subcontainer_not_shared', 'written through the handed-out container, read through a second handle on %s with disk=%s: %s' % (os.path.relpath(subdir, d), disk, r))
+        r = sub_read(sub, c, ref)
+        if r:
+            bad('subcontainer_own_read', 'written and read through the handed-out container: %s' % r)
+        if not found:
+            sub_write(sub, second, ref, sub_items(disk, 3))
+            r = sub_read(sub, c, ref)
+            if r:
+                bad('subcontainer_not_shared_reverse', 'written through a second handle on %s with disk=%s, read through the handed-out container: %s' % (os.path.relpath(subdir, d), disk, r))
+        if event != 'none' and not found:
+            if event == 'reopen' or (event == 'pickle' and parent == 'django'):      # DjangoCache is built from configuration, not pickled
+                close_handle(sub, c)
+                close_handle(parent, h)
+                h = make_handle(parent, d, disk, settings, create=(parent == 'django'))
+            elif event == 'pickle':
+                h2 = pickle.loads(pickle.dumps(h))
+                close_handle(sub, c)
+                close_handle(parent, h)
+                h = h2
+            elif event == 'close':
+                close_handle(sub, c)
+                close_handle(parent, h)
+            c = sub_get(sub, h, name)
+            cdisk = inner(sub, c).disk
+            if not isinstance(cdisk, dk):
+                bad('subcontainer_disk_class', 'after %s: the disk of the handed-out container is a %s, the parent was created with disk=%s' % (event, type(cdisk).__name__, disk))
+            r = sub_read(sub, c, ref)
+            if r:
+                bad('subcontainer_lost_after_event', 'after %s of the parent the handed-out container shows: %s' % (event, r))
+            if not found:
+                sub_write(sub, c, ref, sub_items(disk, 1))
+                r = sub_read(sub, second, ref)
+                if r:
+                    bad('subcontainer_not_shared', 'after %s of the parent: written through the handed-out container, read through the second handle with disk=%s: %s' % (event, disk, r))
+        if sub == 'deque' and not found:
+            got = []
+            while len(got) <= len(ref):
+                try:
+                    got.append(second.popleft())
+                except IndexError:
+                    break
+            if got != [v for _, v in ref]:
+                bad('subcontainer_not_shared', 'items taken one by one from the left through the second handle with disk=%s: %s, written: %s' % (disk, short(got), short([v for _, v in ref])))
+    except Exception as e:  # noqa
+        bad('subcontainer_raised', 'raised %s: %s' % (type(e).__name__, e))
+    finally:
+        if second is not None:
+            close_handle(sub, second)
+        close_handle(parent, h)
+    return found
+
+
+def subcontainers(ctx, res, thorough):
+    """The named containers a FanoutCache / DjangoCache hands out live in sub-directories of the parent and are opened with the parent's Disk class:
+    what is written through them is shared with every handle opened on the sub-directory with that disk class, and survives reopen / pickle / close of the parent."""
+    n = 0
+    clock = instr.Clock(1000.0)
+    with instr.Installed(clock):
+        for parent in SUB_PARENTS:
+            for sub in SUB_KINDS:
+                for di, (disk, settings) in enumerate(SUB_DISKS):
+                    for ei, event in enumerate(SUB_EVENTS):
+                        if not thorough and (di + ei + SUB_KINDS.index(sub)) % 2 and not (disk == 'JSONDisk' and settings == {} and event in ('none', 'reopen')):
+                            continue
+                        case = {'check': 'subcontainer', 'parent': parent, 'sub': sub, 'disk': disk, 'settings': sorted(settings.items()), 'event': event,
+                                'name': SUB_NAMES[(di + ei) % len(SUB_NAMES)]}
+                        try:
+                            found = run_subcontainer(ctx.scratch('c18sub'), case)
+                        except ImportError:
+                            continue
+                        n += 1
+                        res.count(['subcontainer', parent, sub, disk, repr(case['settings']), event, case['name']], nontrivial=event != 'none')
+                        for sig, desc in found[:2]:      # the disk class and the first visible consequence
+                            res.violations.append(fw.Violation(sig, desc, case))
+    res.extra['subcontainer_cases'] = n
+
+
 def run(ctx, big=False, model=True):
     res = fw.Result()
     thorough = (not ctx.quick) or big
@@ -1498,7 +1687,7 @@ def run(ctx, big=False, model=True):
                 'the handle still holds), stats(enable), reset(key), close, reopen, pickle, copy, fresh handle, read in another process / forked child over '
                 'statistics, tag_index, cull_limit, size_limit (of a FanoutCache: the share stored at creation, then the value of the last reset), eviction_policy, disk_min_file_size, disk_pickle_protocol, sqlite_cache_size, '
                 'sqlite_synchronous; every handle that loads settings afterwards (reopened, unpickled, copied, fresh, other process, forked child, every '
-                'shard directory opened on its own) and every reset(key) must show the value of the last completed reset(key, value).')
+                'shard directory opened on its own) and every reset(key) must show the value of the last completed reset(key, value).  Sub-containers: cache(name) / deque(name) / index(name) of a FanoutCache and of a DjangoCache created with Disk / JSONDisk (compress levels 0, 1, 6, 9) and disk_min_file_size / disk_pickle_protocol settings: the disk of the handed-out container is an instance of the Disk class of the parent; inline and file-backed items written through it are read through a second handle opened on the sub-directory with the Disk class of the parent and the reverse, also after reopen / pickle / close of the parent.')
     golden(ctx, res)
     histories(ctx, res, 200 if thorough else 45, 70 if thorough else 40)
     merge_cases(ctx, res, 120 if thorough else 30, model=model and not ctx.search_mode)
@@ -1515,6 +1704,7 @@ def run(ctx, big=False, model=True):
     t0 = _t.time()
     settings_histories(ctx, res, 400 if thorough else 70, 16)
     res.extra['settings_histories_s'] = round(_t.time() - t0, 1)
+    subcontainers(ctx, res, thorough)
     witness_d17(res)
     return res
 
@@ -1547,6 +1737,12 @@ def replay(payload):
                 found = run_settings_history(d, case, worker)
             finally:
                 worker.close()
+            for sig, desc in found:
+                print('%s: %s' % (sig, desc))
+            return not found
+        if case.get('check') == 'subcontainer':
+            with instr.Installed(instr.Clock(1000.0)):
+                found = run_subcontainer(d, case)
             for sig, desc in found:
                 print('%s: %s' % (sig, desc))
             return not found
